@@ -64,7 +64,7 @@ var c03Prods = map[string][]string{
 		"[[·{T}·]]", "[[·{T}·]]·&&·echo·T·||·echo·F", "if·[[·{T}·]]¶then¤echo·T¶fi", "!·[[·{T}·]]",
 		// holes: statements
 		"{¤{S}¶}", "(¤{S}↵)", "{¤{S}¶{S}¶}", "(¤{S}¶{S}↵)", "{S}¶{S}",
-		"(¤(¤{S}↵)↵)", "(¤(¤{S}↵)¶{S}↵)", "(¤{S}¶(¤{S}↵)↵)", "(¤((·x·))↵)", "(¤((·x·))¶{S}↵)", "(¤(¤{S}↵)·|·c↵)", "(¤(¤{S}↵)·&&·{S}↵)", "(¤(¤{S}↵)·>f↵)¶c·<f", "(¤(¤{S}↵)·&↵)¶wait",
+		"(¤(¤{S}↵)↵)", "(¤(¤{S}↵)¶{S}↵)", "(¤{S}¶(¤{S}↵)↵)", "(¤((·x·))↵)", "(¤((·x·))¶{S}↵)", "(¤(¤{S}↵)·|·c↵)", "(¤(¤{S}↵)·&&·{S}↵)", "(¤(¤{S}↵)·>f↵)¶c·<f", "(¤(¤{S}↵)·>/dev/null·2>&1·&↵)¶wait¶echo·z", "(¤(¤{S}↵)·&¶wait↵)",
 		"echo·$(¤(¤{S}↵)↵)", "echo·$(¤(¤{S}↵)¶{S}↵)", "echo·$(¤((·x·))¶echo·$?↵)", "echo·$(¤(¤{S}↵)·|·c↵)", "echo·$(¤{S}↵)", "echo·\"$(¤{S}↵)\"", "echo·`{S}`", "v=$(¤{S}↵)¶echo·\"$v\"", "echo·$(¤{S}¶{S}↵)", "echo·<(¤{S}↵)·>/dev/null",
 		"if¤{S}¶then¤echo·T¶else¤echo·F¶fi", "if¤{S}¶then¤{S}¶fi", "if¤false¶then¤echo·1¶elif¤{S}¶then¤echo·2¶else¤echo·3¶fi", "if¤true¶then¤{S}¶else¤echo·3¶fi", "if¤{S}¶{S}¶then¤echo·T¶fi",
 		"i=0¶while¤[·$i·-lt·2·]¶do¤{S}¶i=$((i+1))¶done", "i=0¶until¤[·$i·-ge·2·]¶do¤i=$((i+1))¶{S}¶done", "while¤{S}¶do¤echo·body¶break¶done", "until¤{S}¶do¤echo·body¶break¶done",
@@ -245,7 +245,7 @@ func c03GenDescribe(c *vc.Ctx) string {
 	if b.probes {
 		space = fmt.Sprintf("every atom in the holes of the %d core contexts, the %d probe atoms in the other holes", len(c03QuickCore), len(c03Probes["S"])+len(c03Probes["W"])+len(c03Probes["A"])+len(c03Probes["T"]))
 	}
-	return fmt.Sprintf("%d templates over builtins only; every expansion to nesting depth %d, one hole explored at a time (%s), in default layout wrapped in a fixed prelude and `echo rc=$?`; every single-gap layout deviation (double space, tab, escaped newline; newline, blank line, trailing comment, comment line, `;`+newline) of the reduced-space expansions of depth<=%d; the depth<=%d expansions also alone in the file", n, b.depth, space, b.layoutDepth, b.bareDepth)
+	return fmt.Sprintf("%d templates over builtins only; every expansion to nesting depth %d, one hole explored at a time (%s), in default layout wrapped in a fixed prelude and `echo rc=$?`; every single-gap layout deviation (double space, tab, escaped newline; newline, blank line, trailing comment, comment line, `;`+newline) of %s; the depth<=%d expansions also alone in the file", n, b.depth, space, vc.Pick(c, "the statement probe atoms", fmt.Sprintf("the reduced-space expansions of depth<=%d", b.layoutDepth)), b.bareDepth)
 }
 
 func c03Wrap(t string) string { return c03Prelude + t + "¶echo·rc=$?" }
@@ -294,8 +294,15 @@ func c03Programs(c *vc.Ctx, emit func(c03Prog)) {
 		}
 	}
 	layoutSet := map[string]bool{}
-	for _, t := range c03Templates("S", b.layoutDepth, true) {
-		layoutSet[t] = true
+	if b.probes {
+		// quick: layout deviations of the statement probe atoms only
+		for _, t := range c03Probes["S"] {
+			layoutSet[t] = true
+		}
+	} else {
+		for _, t := range c03Templates("S", b.layoutDepth, true) {
+			layoutSet[t] = true
+		}
 	}
 	bareSet := map[string]bool{}
 	for _, t := range c03Templates("S", b.bareDepth, b.probes) {
